@@ -44,7 +44,8 @@ Inv_InertComplete ==
     (l = MaxLen /\ l >= 1) => (Len(G0) = T.bodylen \/ \E j \in DOMAIN G0 : G0[j].out # "ok")
 
 RaiseIdx(s) == {j \in DOMAIN s : s[j].out # "ok"}
-EffLen(s) == IF RaiseIdx(s) = {} THEN Len(s) ELSE CHOOSE j \in RaiseIdx(s) : \A k \in RaiseIdx(s) : j <= k
+\* (T.cut = FALSE for "tail" comparisons, where both runs are top-level code that goes on after a logged raise)
+EffLen(s) == IF RaiseIdx(s) = {} \/ ~T.cut THEN Len(s) ELSE CHOOSE j \in RaiseIdx(s) : \A k \in RaiseIdx(s) : j <= k
 
 \* --- transparent: same outcome, same exception class, same values as unguarded code
 Vals(e) == [i \in DOMAIN e.res |-> <<e.res[i].k, e.res[i].v, e.res[i].w, e.res[i].m>>]
